@@ -433,6 +433,18 @@ def sc_roundtrip_behaviour(cfg):
             b.predict(X)
             b.transform(X)
         C.true(calls == [f"{n1}.fit", f"{n1}.predict", f"{n1}.transform"], "roundtrip/behaves-identically(KMeansL1L2-runs-the-implementation-of-its-current-norm)", detail=(n0, n1, calls))
+        # ---- ConstraintKMeans: explicit centres together with any n_init are reported as given, and clone works
+        kc = loader.load("mlmodel.kmeans_constraint")
+        ni = 2 + C.choice("n_init", 4)
+        centers = numpy.arange(6.0).reshape(3, 2)
+        ck = kc.ConstraintKMeans(n_clusters=3, init=centers, n_init=ni, max_iter=7)
+        gp = ck.get_params()
+        C.true(gp["n_init"] == ni and gp["init"] is centers and gp["max_iter"] == 7, "get_params-reports-the-configuration(ConstraintKMeans)", detail=gp.get("n_init"))
+        try:
+            cc = clone(ck)
+            C.true(cc.get_params()["n_init"] == ni, "clone/equal-parameters(ConstraintKMeans)")
+        except RuntimeError as ex:
+            C.true(False, "clone/equal-parameters(ConstraintKMeans)", detail=str(ex)[:80])
         # ---- QuantileLinearRegression: fitted with one configuration, reconfigured, fitted again
         p0, p1 = bool(C.choice("positive_before", 2)), bool(C.choice("positive_after", 2))
         src = qr.QuantileLinearRegression(positive=p1, fit_intercept=False, max_iter=2)
